@@ -76,3 +76,92 @@ func Dump(what string) int {
 }
 
 var dumpers = map[string]func(p *core.Program){}
+
+func init() {
+	dumpers["vmsig"] = func(p *core.Program) {
+		m, msg := eng.BuildVMModel(p)
+		if m == nil {
+			fmt.Println("ERR", msg)
+			return
+		}
+		fmt.Println("prims:")
+		for f, k := range m.Prims {
+			fmt.Println("  ", f.Name(), k)
+		}
+		for _, n := range m.SortedNames() {
+			s := m.Signature(n)
+			if s == nil {
+				fmt.Println(n, "NO HANDLER")
+				continue
+			}
+			fmt.Println(s.String())
+		}
+		fmt.Println("problems:", m.Problems, "default:", m.HasDefault, m.DefaultPanics)
+	}
+	dumpers["vmevents"] = func(p *core.Program) {
+		m, _ := eng.BuildVMModel(p)
+		for _, n := range m.SortedNames() {
+			h := m.Handlers[n]
+			if h == nil {
+				continue
+			}
+			for i, hp := range h.Paths {
+				fmt.Printf("%s path %d term=%s conds=%v\n", n, i, hp.Term, hp.Conds)
+				for _, e := range hp.Events {
+					extra := ""
+					if e.Val != nil {
+						extra += " val=" + e.Val.String()
+					}
+					for _, a := range e.Args {
+						extra += " arg=" + a.String()
+					}
+					if e.Key != nil {
+						extra += " key=" + e.Key.String()
+					}
+					if e.Kind == "loop" {
+						extra += fmt.Sprintf(" count=%s origin=%s bodies=%d", e.Count, e.CountOrigin, len(e.Body))
+					}
+					if e.Assert != nil {
+						extra += " assert=" + e.Assert.String()
+					}
+					fmt.Printf("    %-10s %s %s%s\n", e.Kind, e.Callee, e.Dir, extra)
+				}
+			}
+		}
+	}
+}
+
+func buildEngines(p *core.Program) (*eng.NodeKinds, *eng.VMModel, *eng.Emitter, string) {
+	nk, msg := eng.FindNodeKinds(p)
+	if nk == nil {
+		return nil, nil, nil, msg
+	}
+	vm, msg := eng.BuildVMModel(p)
+	if vm == nil {
+		return nk, nil, nil, msg
+	}
+	em, msg := eng.BuildEmitter(p, nk, vm)
+	if em == nil {
+		return nk, vm, nil, msg
+	}
+	return nk, vm, em, ""
+}
+
+func init() {
+	dumpers["templates"] = func(p *core.Program) {
+		_, _, em, msg := buildEngines(p)
+		if em == nil {
+			fmt.Println("ERR", msg)
+			return
+		}
+		n := 0
+		for _, t := range append(em.AllTemplates(), em.Templates["<top>"]...) {
+			n++
+			fmt.Printf("%-16s [%s] term=%s\n      %s\n", t.Kind, t.CondText(), t.Term, t.String())
+			for _, pr := range t.Problems {
+				fmt.Println("      PROBLEM:", pr)
+			}
+		}
+		fmt.Println(n, "templates; problems:", em.Problems)
+	}
+}
